@@ -76,9 +76,7 @@ impl FormMultipartData {
             let string = StringExt::filter_ascii_control_characters(&string);
             let string = StringExt::truncate_new_line_carriage_return(&string);
 
-            let _current_string_is_boundary =
-                string.replace(SYMBOL.hyphen, SYMBOL.empty_string)
-                    .ends_with(&boundary.replace(SYMBOL.hyphen, SYMBOL.empty_string));
+            let _current_string_is_boundary = FormMultipartData::is_boundary_line(string.as_bytes(), &boundary);
 
             if !_current_string_is_boundary {
                 let message = format!("Body in multipart/form-data request needs to start with a boundary, actual string: '{}'", string);
@@ -110,9 +108,7 @@ impl FormMultipartData {
             let string = StringExt::filter_ascii_control_characters(&string);
             current_string_is_empty = string.trim().len() == 0;
 
-            let _current_string_is_boundary =
-                string.replace(SYMBOL.hyphen, SYMBOL.empty_string)
-                    .ends_with(&boundary.replace(SYMBOL.hyphen, SYMBOL.empty_string));
+            let _current_string_is_boundary = FormMultipartData::is_boundary_line(string.as_bytes(), &boundary);
 
             if _current_string_is_boundary {
                 let message = "There is at least one missing body part in the multipart/form-data request";
@@ -144,7 +140,6 @@ impl FormMultipartData {
 
 
         // multipart/form-data body part. it just arbitrary bytes. ends by delimiter.
-        let mut _boundary_position = 0;
         let mut current_string_is_boundary = false;
         while !current_string_is_boundary {
             buf = vec![];
@@ -163,16 +158,7 @@ impl FormMultipartData {
 
             bytes_read = bytes_read + bytes_offset as i128;
 
-            let escaped_dash_boundary = boundary.replace(SYMBOL.hyphen, SYMBOL.empty_string);
-
-            current_string_is_boundary = false;
-            if b.len() >= escaped_dash_boundary.len() {
-                let boxed_sequence = FormMultipartData::find_subsequence(b, escaped_dash_boundary.as_bytes());
-                if boxed_sequence.is_some() {
-                    current_string_is_boundary = true;
-                    _boundary_position = boxed_sequence.unwrap();
-                }
-            }
+            current_string_is_boundary = FormMultipartData::is_boundary_line(b, &boundary);
 
             if !current_string_is_boundary {
                 part.body.append(&mut buf.clone());
@@ -230,8 +216,30 @@ impl FormMultipartData {
         Ok(boundary.to_string())
     }
 
-    fn find_subsequence(haystack: &[u8], needle: &[u8]) -> Option<usize> {
-        haystack.windows(needle.len()).position(|window| window == needle)
+    // a line delimits parts when it is the boundary (as given, or preceded by the two
+    // hyphens of RFC 2046), optionally followed by the two closing hyphens
+    fn is_boundary_line(line: &[u8], boundary: &str) -> bool {
+        let mut end = line.len();
+        while end > 0 && (line[end - 1] == b'\n' || line[end - 1] == b'\r') {
+            end -= 1;
+        }
+        let line = &line[..end];
+        let boundary = boundary.as_bytes();
+        if boundary.len() == 0 {
+            return false;
+        }
+
+        let dash_boundary = [b"--", boundary].concat();
+        for delimiter in [boundary.to_vec(), dash_boundary] {
+            if line == delimiter.as_slice() {
+                return true;
+            }
+            let closing = [delimiter.as_slice(), b"--"].concat();
+            if line == closing.as_slice() {
+                return true;
+            }
+        }
+        false
     }
 
     pub fn generate_part(part: Part) -> Result<Vec<u8>, String> {
